@@ -186,6 +186,23 @@ def conjuncts(c):
     return [c]
 
 
+def pat_binds_ids(p, out=None):
+    """(binding id, name) of every binding in a pattern"""
+    if out is None:
+        out = []
+    if isinstance(p, dict):
+        if p.get('k') == 'bind':
+            out.append((p.get('id'), p.get('name')))
+        for v in p.values():
+            if isinstance(v, dict):
+                pat_binds_ids(v, out)
+            elif isinstance(v, list):
+                for x in v:
+                    if isinstance(x, dict):
+                        pat_binds_ids(x, out)
+    return out
+
+
 def pat_binds(p, out=None):
     """names bound by a pattern"""
     if out is None:
